@@ -233,7 +233,7 @@ fn main() {
             pair::install_hook();
             let thorough = a.get("tier").map(|s| s == "thorough").unwrap_or(false);
             let depth: usize = a.get("depth").map(|s| s.parse().unwrap()).unwrap_or(4);
-            let model = pair::PairModel { thorough, max_depth: depth };
+            let model = pair::PairModel { thorough, max_depth: depth, huge: a.get("huge").map(|s| s == "1").unwrap_or(false) };
             if replay {
                 let bytes = journal::from_hex(a.get("hex").expect("--hex"));
                 let h = mc::Hist::<pair::PCfg, pair::PAct>::from_bytes(&bytes).unwrap_or_else(|| {
@@ -300,7 +300,7 @@ fn main() {
         "isolation" | "isolation-child" | "replay-isolation" => {
             // C20 across processes (see pair.rs): parent spawns one fresh child per prefix history
             let thorough = a.get("tier").map(|s| s == "thorough").unwrap_or(false);
-            let model = pair::PairModel { thorough, max_depth: 8 };
+            let model = pair::PairModel { thorough, max_depth: 8, huge: false };
             let ms: Vec<u8> = vec![1, 16];
             if args[1] == "isolation-child" {
                 env::init_region(4 * env::MAX_ARENAS * (slab_bytes + env::SLAB_ALIGN));
